@@ -11,9 +11,11 @@ and /venv's site-packages; a file is used when CPython parses it and it is *plai
   * uses none of Scenic's hard keywords (at by do new of on require to until) as a name,
   * does not assign to / delete a Scenic built-in name (str int float globalParameters ego workspace) -- the reference says
     these "can be used but not overwritten",
-  * has no annotated statement directly in a class body (`x: T` there is a Scenic property definition by the class grammar).
+  * has no annotated statement directly in a class body (`x: T` there is a Scenic property definition by the class grammar),
+  * does not use the binary operator `@` (in Scenic `X @ Y` builds a vector: a documented difference).
 Bound: quick tier = 100 files of at most 4 kB chosen by VERIF_SEED (70 stdlib + 30 site-packages) -- the generated Python-in-Python
-parser handles only a few kB per second; thorough tier = every file.  A fixed list of 5 small regression snippets (the failing
+parser handles only a few kB per second; thorough tier = 1000 files of at most 16 kB chosen by VERIF_SEED (700 + 300); with
+VERIF_CORPUS=all every file (many hours; run once during development, its findings are the `regressions` group).  A fixed list of 5 small regression snippets (the failing
 inputs of confirmed findings) is always run as group "regressions".
 The file list and byte count of the run are written to evidence/C09_corpus.json."""
 import ast
@@ -145,6 +147,8 @@ def plain_for_scenic(text):
             return "overwrites a Scenic built-in name"
         if isinstance(n, ast.ClassDef) and any(isinstance(b, ast.AnnAssign) for b in n.body):
             return "annotated statement in a class body (Scenic property syntax)"
+        if isinstance(n, (ast.BinOp, ast.AugAssign)) and isinstance(n.op, ast.MatMult):
+            return "uses the @ operator (Scenic's vector operator: documented difference)"
     return None
 
 
@@ -185,7 +189,14 @@ def plan(tier, seed):
             want = 70 if group == "stdlib" else 30
             cand = small
         else:
-            want, cand = None, files
+            # thorough: a seeded sample ten times the size of the quick one, files of up to 16 kB (the whole standard
+            # library takes the Python-in-Python parser many hours; `VERIF_CORPUS=all` selects every file)
+            if os.environ.get("VERIF_CORPUS") == "all":
+                want, cand = None, files
+            else:
+                medium = [f for f in files if 0 < os.path.getsize(f) <= 16384]
+                rng.shuffle(medium)
+                want, cand = (700 if group == "stdlib" else 300), medium
         got = 0
         for f in cand:
             if want is not None and got >= want:
